@@ -49,33 +49,25 @@ func register(r *mc.Registry) {
 		sc.TickLimit = 10_000_000
 	}
 	// two threads, one per side
-	type concCase struct {
-		data  []int
-		bound int
-	}
-	cases := []concCase{{[]int{}, -1}, {[]int{1}, -1}, {[]int{0, 2}, -1}, {[]int{2, 0}, -1}, {[]int{1, 1}, -1},
-		{[]int{0, 2, 1}, 2}, {[]int{2, 0, 0}, 2}, {[]int{1, 2, 0}, 2}}
+	free := [][]int{{}, {1}, {0, 2}, {2, 0}, {1, 1}}
+	bounded := [][]int{{0, 2, 1}, {2, 0, 0}, {1, 2, 0}}
+	pb := 2
 	if r.Thorough() {
-		cases = []concCase{{[]int{}, -1}, {[]int{1}, -1}, {[]int{0, 2}, -1}, {[]int{2, 0}, -1}, {[]int{1, 1}, -1},
-			{[]int{0, 2, 1}, -1}, {[]int{2, 0, 0}, -1}, {[]int{1, 2, 0}, -1}, {[]int{0, 2, 1, 0}, 3}, {[]int{1, 1, 2, 0}, 3}}
-	}
-	var concInputs []string
-	for _, c := range cases {
-		concInputs = append(concInputs, fmt.Sprintf("%v (preemption bound %d)", c.data, c.bound))
+		free = append(free, bounded...)
+		bounded = [][]int{{0, 2, 1, 0}, {1, 1, 2, 0}, {2, 0, 1, 1}}
+		pb = 3
 	}
 	for which, n := range twoNames {
-		for _, c := range cases {
-			ps := preds[:2]
-			if which == 0 {
-				ps = preds[:1]
-			}
-			for _, p := range ps {
-				sc := r.Conc(fmt.Sprintf("conc/%s(%s)/%v", n, p.name, c.data), c.bound, concurrent(which, c.data, p))
-				sc.SplitDepth = 4
-				sc.TickLimit = 10_000_000
-			}
-		}
+		sc := r.Conc("conc/"+n, -1, concurrent(which, free))
+		sc.SplitDepth = 5
+		sc.Shard = true
+		sc.TickLimit = 10_000_000
+		sc = r.Conc(fmt.Sprintf("conc-pb%d/%s", pb, n), pb, concurrent(which, bounded))
+		sc.SplitDepth = 5
+		sc.Shard = true
+		sc.TickLimit = 10_000_000
 	}
+	concInputs := map[string]any{"all interleavings": free, fmt.Sprintf("preemption bound %d", pb): bounded, "predicates": []string{preds[0].name, preds[1].name}}
 
 	r.Rule = "proto/*: execution = (producer, its parameters, input over {0,1,2} up to the length bound, one string over {HasNext, Next} of length 2*len+4 in which Next follows a true HasNext, or is a blind Next once the reference is exhausted); every such string is run (large hash tries: the bounded family h1/h2 HasNext calls before odd/even elements plus the exhausted tail). two-sided/*: every interleaving of the two sides' calls up to 2*(len(left)+len(right))+extra calls with a bounded number of repeated HasNext calls. conc/*: every interleaving (sleep sets; a preemption bound where the bounds say so) of two draining threads at the library's Mutex.Lock/Unlock and at scheduling points inside the shared source's HasNext/Next. non-trivial = the pattern repeated a HasNext and consumed an element, or called Next on the exhausted iterator (two-sided: at least two switches between the sides and two elements delivered; conc: a context switch between started threads); distinct = distinct (elements consumed, blind Next calls, repeated HasNext calls, reference sequence)"
 	r.Assumptions = []string{
